@@ -532,3 +532,18 @@ Theorem c10_send_close_deadline : forall acts s i,
              (reader s' = RReading -> exists s'', wstep false s' RdErr = Some s'').
 Proof. exact write_deadline_closes. Qed.
 Print Assumptions c10_send_close_deadline.
+
+(* the alternative schedules of the classes whose forced interleaving depends on the kernel or
+   the scheduler (a Send that never blocks; a start that completes before Close): the runs the
+   observations are then compared with *)
+Theorem c10_send_close_unblocked_example :
+  exists s, wrun false winit (unblocked_schedule 3) = Some s /\
+            stopper s = SRet /\ writers s = [WDone Ok; WDone Ok; WDone Ok] /\ wgw s = 0 /\ sock s = false.
+Proof. exact unblocked_schedule_ok. Qed.
+Print Assumptions c10_send_close_unblocked_example.
+
+Theorem c10_start_close_unheld_example :
+  exists s, orun false oinit ctor_unheld_schedule = Some s /\
+            ocloser s = OClosed /\ regs s = 0 /\ bounds s = 0 /\ readers s = 0 /\ starts s = [PGone].
+Proof. exact ctor_unheld_code. Qed.
+Print Assumptions c10_start_close_unheld_example.
